@@ -56,6 +56,8 @@ pub enum Op {
     /// evaluate at a point (integer coefficients, usize exponents only)
     Eval(Vec<i8>, PVal),
     Rebuild,
+    /// map_coeffs with a map that has a kernel: coefficients equal to the given value are sent to 0, the others multiplied by the second value
+    MapCoeffs(i32, i32, i32),
 }
 
 #[derive(Clone, Debug, Serialize, Deserialize)]
@@ -329,6 +331,15 @@ where X: MX, R: Sc + yui::Ring + EvalInt<X>, for<'a> &'a R: yui::RingOps<R> {
                     ensure!(ep.to_rv() == RV::Z(&want_a * &want_x), "{what}: eval not multiplicative");
                 }
             }
+            Op::MapCoeffs(a, b, m) => {
+                let (kill, mul) = (coef(c.cty, *a, *b), coef(c.cty, *m, 1));
+                let (Some(killr), Some(mulr)) = (R::from_rv(&kill), R::from_rv(&mul)) else { continue };
+                let a0 = acc.clone();
+                acc = lib::<R, _>(&what, || a0.map_coeffs(|r| if *r == killr { R::zero() } else { r * &mulr }))?;
+                let nm: Model = model.iter().map(|(e, cf)| (e.clone(), if *cf == kill { k.zero() } else { k.mul(cf, &mul) })).filter(|(_, cf)| !k.is_zero(cf)).collect();
+                if nm.len() < model.len() { cancel = true; }
+                model = nm; steps += 1;
+            }
             Op::Rebuild => {
                 let Some(f) = lib::<R, _>(&what, || build::<X, R>(&model, true))? else { continue };
                 ensure!(f == acc && acc == f, "{what}: acc != polynomial rebuilt from the same terms: {:?} vs {:?}", acc, f);
@@ -438,6 +449,22 @@ fn run_lc<R>(c: &Case) -> Chk<Pass> where R: Sc + yui::Ring, for<'a> &'a R: yui:
                 model = nm; steps += 1;
             }
             Op::Rebuild => { if let Some(f) = build(&model, true) { ensure!(f == acc, "{what}: != rebuilt"); } }
+            Op::MapCoeffs(a, b, m) => {
+                let (kill, mul) = (coef(c.cty, *a, *b), coef(c.cty, *m, 1));
+                let (Some(killr), Some(mulr)) = (R::from_rv(&kill), R::from_rv(&mul)) else { continue };
+                let a0 = acc.clone();
+                acc = lib::<R, _>(&what, || if *m % 2 == 0 { a0.map_coeffs(|r| if *r == killr { R::zero() } else { r * &mulr }) } else { a0.clone().into_map_coeffs(|r| if r == killr { R::zero() } else { &r * &mulr }) })?;
+                let nm: Model = model.iter().map(|(e, cf)| (e.clone(), if *cf == kill { k.zero() } else { k.mul(cf, &mul) })).filter(|(_, cf)| !k.is_zero(cf)).collect();
+                if nm.len() < model.len() { cancel = true; }
+                model = nm; steps += 1;
+                // merging generators: x -> x / 2 (terms may add up and cancel)
+                let a1 = acc.clone();
+                acc = lib::<R, _>(&what, || a1.map_gens(|x| Free(x.0.div_euclid(2))))?;
+                let mut mm = Model::new();
+                for (e, cf) in &model { let g = norm_e(vec![e.get(0).cloned().unwrap_or(0).div_euclid(2)]); let v = k.add(mm.get(&g).unwrap_or(&k.zero()), cf); if k.is_zero(&v) { mm.remove(&g); } else { mm.insert(g, v); } }
+                if mm.len() < model.len() { cancel = true; }
+                model = mm;
+            }
             _ => continue,
         }
         state(&acc, &model, &format!("after {what}"))?;
@@ -497,6 +524,7 @@ fn op(tier: Tier) -> BoxedStrategy<Op> {
         2 => (pval(tier), exps()).prop_map(|(v, e)| Op::Orders(v, e)),
         2 => (prop::collection::vec(-3i8..=3, 3), pval(tier)).prop_map(|(p, v)| Op::Eval(p, v)),
         1 => Just(Op::Rebuild),
+        2 => (-3i32..=3, -2i32..=2, -2i32..=3).prop_map(|(a, b, m)| Op::MapCoeffs(a, b, m)),
     ].boxed()
 }
 
